@@ -382,6 +382,17 @@ def scale_diagnosis(am, hkl, cell, cut, ret_hex=None, retry=False):
     s1 = basis_status(am, hkl, cell, cut, ret_hex)
     if s1[0] not in ('refused', 'wrong'):
         return None
+    if s1[0] == 'refused':
+        # the documented refusal at the default search bound (e.g. the shortest in-plane vector exactly as long as the initial
+        # bound, decided by rounding - which differs from unit to unit) is cured by a larger bound; the unit dependence refuses
+        # at every bound
+        d = sr.default_maxindex(plane3(hkl), cell.get('setting', 'p'))
+        for mi in (d + 1, d + 2, 2 * d + 2, 3 * d + 3):
+            sx = basis_status(am, hkl, cell, cut, ret_hex, maxindex=mi)
+            if sx[0] != 'refused':
+                break
+        if sx[0] in ('ok', 'parallel'):
+            return None
     twin = dict(cell, lscale=0)
     s0 = basis_status(am, hkl, twin, cut, ret_hex)
     if s0[0] == 'refused' and retry:
@@ -682,6 +693,7 @@ def enum_basis(tier):
 # ----------------------------------------------------------------------------- random cells / planes
 
 _fam = st.sampled_from(FAMILIES)
+_fam8 = st.sampled_from(FAMILIES + ('hexagonal',))
 _rot = gens.rotations(min_angle=1.0)
 _idx3 = st.integers(-3, 3)
 _idx4 = st.integers(-4, 4)
@@ -691,7 +703,7 @@ _int10 = st.integers(0, 9)
 _int20 = st.integers(0, 19)
 _bool = st.booleans()
 # length unit of a case: 10**lscale; angstrom-scale numbers (0) in half of the cases, SI (1e-10) favoured among the others
-_lscale = st.sampled_from([0] * 18 + [-10] * 6 + [-12, -9, -8, -6, -4, -3, -2, -1, 1, 2, 3, 6])
+_lscale = st.sampled_from([0] * 18 + [-10] * 8 + [-12, -9, -8, -6, -4, -3, -2, -1, 1, 2, 3, 6])
 SETTING_FAMILIES = {
     'i': ('orthorhombic', 'tetragonal', 'cubic'),
     'f': ('orthorhombic', 'cubic'),
@@ -706,7 +718,7 @@ FAMILY_SETTINGS = {f: ['p'] + [s for s, fs in SETTING_FAMILIES.items() if f in f
 
 @st.composite
 def cells(draw, centred_share=4):
-    fp = draw(gens.family_params())
+    fp = draw(gens.family_params(family=draw(_fam8)))          # hexagonal twice: Miller-Bravais input needs its share
     fam = fp['family']
     setting = 'p'
     opts = FAMILY_SETTINGS[fam]
@@ -1746,6 +1758,7 @@ _outs = st.sampled_from([0.5, -0.3, 1.25, 0.1])
 _custom_where = st.sampled_from(['init', 'fault', 'fault', 'setter', 'setter'])
 
 
+_fmode = st.sampled_from(['default', 'default', 'cart', 'cart', 'rel', 'rel', 'rel'])
 _which = st.sampled_from(['both', 'both', 'a1', 'a1', 'a2'])
 _fkind = st.sampled_from(['a12', 'a12', 'a12', 'a12', 'lattice', 'lattice', 'faultshift', 'faultshift', 'a12out', 'default'])
 
@@ -1774,7 +1787,7 @@ def fault_cases(draw):
     custom = None
     if draw(_int10) < 3:
         custom = {'combo': draw(_combo), 'where': draw(_custom_where),
-                  'bad': draw(_int10) < 2, 'at': draw(_int10)}
+                  'bad': draw(_int10) < 3, 'at': draw(_int10)}
     # object history: earlier surface() calls (other arguments, fault position given or defaulted), setters / fault() between
     prior = []
     for _ in range(draw(_nprior)):
@@ -1794,7 +1807,7 @@ def fault_cases(draw):
     history = {'prior': prior, 'final_shift': draw(_final_shift),
                'pre_fault': {'a1': draw(_frac15), 'a2': draw(_frac15), 'fpos': draw(_relpos) if draw(_bool) else None}
                if draw(_int10) < 3 else None}
-    fmode = draw(st.sampled_from(['default', 'default', 'cart', 'cart', 'rel', 'rel']))
+    fmode = draw(_fmode)
     even = draw(_int10) < 3
     minwidth = draw(_width) if draw(_int10) < 3 else None
     if fmode == 'default' and draw(_int10) < 7:
@@ -1833,14 +1846,14 @@ def fault_cases(draw):
         # the 1e-7 band in which rounding decides the side of an atom)
         case['fpos']['near'] = {'e': draw(_near_e), 'side': draw(_int10) % 2}
     k = draw(_int20)
-    if k < 2 and sh['kind'] in ('a12', 'a12out'):
+    if k < 3 and sh['kind'] in ('a12', 'a12out'):
         # class E: fractional shifts a hair (1e-9 ... 1e-4) from 0 / a full lattice vector
         sh['kind'] = 'a12near'
         sh.pop('out', None)
         sh['a1'] = draw(_small) + draw(_hair)
         if sh.get('a2') is not None and draw(_bool):
             sh['a2'] = draw(_small) + draw(_hair)
-    elif k < 5 and case['minimum_r'] is None and (sh['kind'] in ('a12out', 'default') or (sh['kind'] == 'a12' and sh.get('a2') is not None)):
+    elif k < 6 and case['minimum_r'] is None and (sh['kind'] in ('a12out', 'default') or (sh['kind'] == 'a12' and sh.get('a2') is not None)):
         # class F: the components of ONE shift request span 8+ decades (a1 ~ 1e-9, a2 ~ 0.4, outofplane ~ 1e-5 S; or a full
         # faultshift vector): judged at rounding level, and again as the small component alone
         if draw(_bool):
@@ -2506,7 +2519,7 @@ CLAUSES = [
                            'sym_relabel': 0.025, 'near_sym': 0.023}, **_unit_guards(0.1, 0.03, 0.23, 0.11)),
            max_share={'refusal': 0.15},
            desc='the same oracle on random cells of every family / centred setting (30 % rigidly rotated), planes up to index 4'),
-    Clause('surface', oracle_surface, surface_cases, quick=520, thorough=11500,
+    Clause('surface', oracle_surface, surface_cases, quick=570, thorough=11500,
            min_share=dict({'nt': 0.2, 'built': 0.4, 'multilayer': 0.2, 'multishift': 0.3, 'vacuum': 0.12, 'minwidth_decides': 0.06,
                            'negmult': 0.12, 'tuplemult': 0.12, 'centred': 0.12, 'hex4': 0.02, 'cut_a': 0.07, 'cut_b': 0.07,
                            'history_second_surface': 0.26, 'history_third_surface': 0.1, 'history_shift_persisted': 0.07,
@@ -2522,7 +2535,7 @@ CLAUSES = [
                 'systems: pbc, box = multipliers x oriented cell, same crystal by map-back with multiplicity, cut between planes, '
                 'minwidth/even/sizemults, vacuum lengthens the cut vector only, surfacearea; in half of the cases after one or two '
                 'earlier surface() / set_shift() calls with other arguments on the same object (only the shift persists)'),
-    Clause('fault', oracle_fault, fault_cases, quick=520, thorough=11500,
+    Clause('fault', oracle_fault, fault_cases, quick=570, thorough=11500,
            min_share={'nt': 0.2, 'built': 0.4, 'shifted': 0.3, 'both_sides': 0.35, 'lattice_nonzero': 0.05, 'custom_avect': 0.1,
                       'onplane_exact': 0.015, 'itermap': 0.07, 'refusal_avect': 0.025, 'kind_faultshift': 0.03, 'fpos_rel': 0.12,
                       'a1_only': 0.06, 'centred': 0.12,
@@ -2533,7 +2546,7 @@ CLAUSES = [
                       # classes carried over from the seeded rounds
                       'ledger': 0.28, 'ledger_other': 0.05, 'forms': 0.08, 'hkl_form': 0.075, 'hkl_narrow': 0.04, 'shift_form': 0.065,
                       'mults_form': 0.04, 'npscalar_form': 0.07, 'store': 0.05, 'store_narrow_float': 0.025, 'fpos_near_layer': 0.012,
-                      'kind_a12near': 0.015, 'decades': 0.01, 'near_sym': 0.03, 'sym': 0.065, 'sym_perm': 0.055, 'sym_relabel': 0.013,
+                      'kind_a12near': 0.01, 'decades': 0.01, 'near_sym': 0.03, 'sym': 0.065, 'sym_perm': 0.055, 'sym_relabel': 0.013,
                       'rows_signed_perm': 0.035,
                       **_caller_guards(0.06, 0.1), **_unit_guards(0.09, 0.045, 0.24, 0.09)},
            max_share={'refusal_search': 0.25, 'refusal_cut': 0.4, 'c04_filtering_skip': 0.02, 'atom_on_fault_plane_exempt': 0.15},
